@@ -446,10 +446,11 @@ theorem C03_shipped_vectors :
 
 `Model/MpclSsa.lean` `ssaEval` evaluates the real compiler's SSA step lists
 (tied three-way, on every generated program and input, to the source
-interpreter and to the compiled circuit by checks/C03.py).  On the scalar
-fragment the two Lean semantics are PROVED to agree through a Lean model
-`Ssa.lower` (`Model/MpclLower.lean`) of ssagen.go; `lower` itself is run next
-to the REAL ssagen on every check (mode `c03 lower`, driver op `LOWER`). -/
+interpreter and to the compiled circuit by checks/C03.py).  On the fragment of
+`Ssa.lower` - scalars, arrays, structs (also nested), inlined function calls
+with several results - the two Lean semantics are PROVED to agree through the
+Lean model `Ssa.lower` (`Model/MpclLower.lean`) of ssagen.go; `lower` itself is
+run next to the REAL ssagen on every check (mode `c03 lower`, driver op `LOWER`). -/
 
 open Mpc.Mpcl.Ssa in
 /-- Full statement (not proved): for every program `p` of the subset and every
@@ -457,25 +458,37 @@ input `x`, `ssaEval (ssagen p) x = runRaw p x` where `ssagen` is the real
 AST -> SSA translation.
 
 Proved here: the same with `Ssa.lower`, the Lean model of ssagen.go, for every
-function of the fragment
+program `P` with entry function `main` of the fragment
 
-    types   T ::= bool | intN | uintN
+    types   T ::= bool | intN | uintN | [n]T | struct { T .. T }
     expr    e ::= x | n | true | false | i (loop constant) | T(n) | T(i)
                 | e + e | e - e | e * e | e / e | e % e | e & e | e | e | e ^ e | e &^ e
                 | e << k | e >> k | e < e | e <= e | e > e | e >= e | e == e | e != e
-                | e && e | e || e | !e | -e | T(e)
-    stmt    s ::= var x T | var x T = e | x := e | x = e
+                | e && e | e || e | !e | -e | T(e)                   (scalar operands)
+                | e[k]  (k a literal / loop constant, k < n: `slice`)
+                | e[e'] (e' of type uintK, 2^K <= n: `index`)
+                | e.f   (`slice` at the field offset)
+                | f(e, .., e)                                         (one result)
+    lval    l ::= x | l[k] | l.f                                      (`mov` / `amov`)
+    stmt    s ::= var x T | var x T = e | x := e | l = e
+                | x, .., y := f(e, .., e) | l, .., l = f(e, .., e)   (several results)
                 | if e { s* } [else { s* }]      (also with `return` inside)
                 | for i := lo; i <cmp> hi; i += st { s* }      (unrolled)
                 | return e, .., e
-    func      ::= func(params) { s* }     every path ends in `return`
+    func      ::= func(params) (results) { s* }     every path ends in `return`; named
+                  results are `var r T` at the start of the body (zero-initialised)
+    program   ::= func*   calls are INLINED (fresh value ids per activation, one `mov`
+                  per parameter into a new scope, the callee's early returns merged by
+                  phis along ITS branch structure); a call targets a function with a
+                  smaller index, so recursion is outside (`lower` = none)
 
-(`lower fuel fn = some ..` IS the fragment predicate; it is decidable and
+(`lower fuel P main = some ..` IS the fragment predicate; it is decidable and
 contains the side conditions below), and every input:
   (1) if the SSA program evaluates — the only way it cannot is a division by
-      zero in the straight-line code, on a taken or an untaken path — the
-      reference interpreter is defined and gives the same outputs;
-  (2) without `/ %` in the source the SSA program always evaluates, so both
+      zero in the straight-line code, on a taken or an untaken path, of `main`
+      or of an inlined callee — the reference interpreter is defined and gives
+      the same outputs;
+  (2) without `/ %` in the program the SSA program always evaluates, so both
       semantics are defined and equal.
 `/ %` therefore carry the guard "no zero divisor on any path" as the
 hypothesis of (1) (the generator only emits divisors `e | 1` and non-zero
@@ -488,30 +501,51 @@ the real compiler from the reference semantics, /verif/known_findings.json):
   * a literal at a signed type intN must be `< 2^(N-1)`, and a literal whose own
     32/64-bit constant has its top bit set may not be used at a wider signed
     type (`litOk`: literal signedness, C03-const-signed-widening);
-  * all declared names (parameters, `var`, `:=`, loop variables) are pairwise
-    distinct and no `:=` occurs in a `for` body (`scopeOk`: MPCL's function-level
-    scoping, C03-inner-block-redeclaration, C03-define-redeclared-rejected);
-  * loop variables take values in `0 .. 2^31-1`; an `if` condition and at least
-    one operand of every operator are not constants (constant folding is C12).
+  * in every function all declared names (parameters, `var`, `:=`, loop
+    variables) are pairwise distinct and no `:=` occurs in a `for` body
+    (`scopeOk`: MPCL's function-level scoping, C03-inner-block-redeclaration,
+    C03-define-redeclared-rejected);
+  * loop variables take values in `0 .. 2^31-1`; an `if` condition, the
+    arguments of a call and at least one operand of every operator are not
+    constants (constant folding is C12); a constant index is `< n` (the real
+    compiler rejects the program otherwise) and a computed index has a type
+    that cannot exceed the array (the reference semantics is undefined out of
+    range, the `index` circuit answers 0).
 
-Missing: arrays, structs, calls, assignment to elements/fields, non-constant
-folding; `lower` creates the merge phis eagerly where the real compiler creates
-them lazily at the first use (same values; structural drift is reported by the
-tie as advisory), and it is tied to the real ssagen differentially (every run),
-not by proof. -/
-theorem C03_ssa_lower_correct_partial (fuel : Nat) (fn : Func) (ins : List (Nat × Nat)) (steps : List SInstr)
-    (h : lower fuel fn = some (ins, steps)) (args : List Nat) (hlen : args.length = fn.params.length) :
+Missing: `return f(..)` / `g(f(..))` passing SEVERAL results on at once,
+constant-only expressions (`a[i+1]`), `len`; `lower` creates the merge phis
+eagerly where the real compiler creates them lazily at the first use and emits
+one `amov` for a nested l-value where the real compiler emits slice + amov +
+amov (same values; structural drift is reported by the tie as advisory), and it
+is tied to the real ssagen differentially (every run), not by proof. -/
+theorem C03_ssa_lower_correct_partial (fuel : Nat) (P : Prog) (main : Nat) (fn : Func) (hfn : P[main]? = some fn)
+    (ins : List (Nat × Nat)) (steps : List SInstr)
+    (h : lower fuel P main = some (ins, steps)) (args : List Nat) (hlen : args.length = fn.params.length) :
+    (∀ res, ssaEval (Nat → Nat) ins steps args = some res → ∃ f, runRaw P f main args = some res) ∧
+    (noDivP P = true →
+      ∃ res, ssaEval (Nat → Nat) ins steps args = some res ∧ ∃ f, runRaw P f main args = some res) :=
+  lower_correct_partial fuel P main fn hfn ins steps h args hlen
+
+open Mpc.Mpcl.Ssa in
+/-- The single-function instance (the statement of the first version of the theorem). -/
+theorem C03_ssa_lower_correct_single (fuel : Nat) (fn : Func) (ins : List (Nat × Nat)) (steps : List SInstr)
+    (h : lower fuel [fn] 0 = some (ins, steps)) (args : List Nat) (hlen : args.length = fn.params.length) :
     (∀ res, ssaEval (Nat → Nat) ins steps args = some res → ∃ f, runRaw [fn] f 0 args = some res) ∧
     (noDivB fn.body = true →
-      ∃ res, ssaEval (Nat → Nat) ins steps args = some res ∧ ∃ f, runRaw [fn] f 0 args = some res) :=
-  lower_correct_partial fuel fn ins steps h args hlen
+      ∃ res, ssaEval (Nat → Nat) ins steps args = some res ∧ ∃ f, runRaw [fn] f 0 args = some res) := by
+  obtain ⟨h1, h2⟩ := lower_correct_partial fuel [fn] 0 fn rfl ins steps h args hlen
+  exact ⟨h1, fun hnd => h2 (by simp [noDivP, hnd])⟩
 
-/-! Non-vacuity: a concrete function of the fragment for every construct;
+/-! Non-vacuity: a concrete program of the fragment for every construct;
 `lower` succeeds and both semantics are evaluated by the kernel. -/
 
-/-- Both semantics on one input: `ssaEval (lower fn)` and `runRaw fn`. -/
+/-- Both semantics on one input: `ssaEval (lower P main)` and `runRaw P main`. -/
+def bothSemP (P : Prog) (main : Nat) (args : List Nat) : Option (List (Nat × Nat)) × Option (List (Nat × Nat)) :=
+  ((Ssa.lower 60 P main).bind fun r => Ssa.ssaEval (Nat → Nat) r.1 r.2 args, runRaw P 80 main args)
+
+/-- The same for a single function. -/
 def bothSem (fn : Func) (args : List Nat) : Option (List (Nat × Nat)) × Option (List (Nat × Nat)) :=
-  ((Ssa.lower 40 fn).bind fun r => Ssa.ssaEval (Nat → Nat) r.1 r.2 args, runRaw [fn] 60 0 args)
+  bothSemP [fn] 0 args
 
 /-- `func(a int8, b uint4) (int8, uint4) { var x int8 = a + int8(b); x = x ^ a;
 return x - a, uint4(x) & b }` (the straight-line fragment of the first version). -/
@@ -568,13 +602,92 @@ def exDiv : Func := ⟨[("a", .int 8), ("b", .int 8)], 2,
   [.ret [.bin .div (.var "a") (.bin .bor (.var "b") (.lit (.int 8) 1)),
          .bin .mod (.var "a") (.bin .bor (.var "b") (.lit (.int 8) 1))]]⟩
 
+/-- Calls (inlined): early return in the callee, two results, named results, a call in an
+expression and as an argument, `x, y := f(..)` and `a, y = f(..)`:
+```
+func f(p uint8, q uint8) (uint8, bool) { if p > q { return p - q, true }; return q - p, false }
+func g(p uint8) (r uint8) { if p > 3 { r = p }; return }            // named result, zero-initialised
+func main(a uint8, b uint8) (uint8, bool, uint8) {
+  x, y := f(a, b); a, y = f(x, g(b)); return a, y, g(x) + x }
+``` -/
+def exCall : Prog :=
+  [⟨[("p", .uint 8), ("q", .uint 8)], 2,
+    [.ifte (.bin .gt (.var "p") (.var "q")) [.ret [.bin .sub (.var "p") (.var "q"), .lit .bool 1]] [],
+     .ret [.bin .sub (.var "q") (.var "p"), .lit .bool 0]]⟩,
+   ⟨[("p", .uint 8)], 1,
+    [.decl "r" (.uint 8) none,
+     .ifte (.bin .gt (.var "p") (.lit (.uint 8) 3)) [.assign [⟨"r", []⟩] (.var "p")] [],
+     .ret [.var "r"]]⟩,
+   ⟨[("a", .uint 8), ("b", .uint 8)], 3,
+    [.define ["x", "y"] (.call 0 [.var "a", .var "b"]),
+     .assign [⟨"a", []⟩, ⟨"y", []⟩] (.call 0 [.var "x", .call 1 [.var "b"]]),
+     .ret [.var "a", .var "y", .bin .add (.call 1 [.var "x"]) (.var "x")]]⟩]
+
+/-- Arrays: parameter, constant and computed index, element write, whole-array copy, loop
+variable as index, array result:
+```
+func main(a [4]uint4, i uint2) ([4]uint4, uint4, uint4) {
+  var b [4]uint4 = a; b[1] = a[0] + a[i]; var s uint4
+  for k := 0; k < 4; k++ { s = s + b[k] }
+  return b, a[3], s }
+``` -/
+def exArr : Prog :=
+  [⟨[("a", .arr 4 (.uint 4)), ("i", .uint 2)], 3,
+    [.decl "b" (.arr 4 (.uint 4)) (some (.var "a")),
+     .assign [⟨"b", [.idx (.lit (.int 32) 1)]⟩]
+       (.bin .add (.idx (.var "a") (.lit (.int 32) 0)) (.idx (.var "a") (.var "i"))),
+     .decl "s" (.uint 4) none,
+     .for "k" 0 .lt 4 1 [.assign [⟨"s", []⟩] (.bin .add (.var "s") (.idx (.var "b") (.var "k")))],
+     .ret [.var "b", .idx (.var "a") (.lit (.int 32) 3), .var "s"]]⟩]
+
+/-- `struct { f0 uint4; f1 bool; f2 int4 }` -/
+def tS : Ty := .struct [.uint 4, .bool, .int 4]
+
+/-- Structs: field read / write, a struct variable merged by phi, struct parameter and result of a call:
+```
+type S struct { f0 uint4; f1 bool; f2 int4 }
+func h(s S, c bool) S { if c { s.f0 = s.f0 + 1; s.f1 = !s.f1 } else { s.f2 = -s.f2 }; return s }
+func main(s S, c bool) (S, uint4) { t := h(s, c); return t, t.f0 + s.f0 }
+``` -/
+def exStruct : Prog :=
+  [⟨[("s", tS), ("c", .bool)], 1,
+    [.ifte (.var "c")
+       [.assign [⟨"s", [.fld 0]⟩] (.bin .add (.fld (.var "s") 0) (.lit (.uint 4) 1)),
+        .assign [⟨"s", [.fld 1]⟩] (.not (.fld (.var "s") 1))]
+       [.assign [⟨"s", [.fld 2]⟩] (.neg (.fld (.var "s") 2))],
+     .ret [.var "s"]]⟩,
+   ⟨[("s", tS), ("c", .bool)], 2,
+    [.define ["t"] (.call 0 [.var "s", .var "c"]),
+     .ret [.var "t", .bin .add (.fld (.var "t") 0) (.fld (.var "s") 0)]]⟩]
+
+/-- `struct { f0 [2]uint4; f1 uint4 }` -/
+def tT : Ty := .struct [.arr 2 (.uint 4), .uint 4]
+
+/-- Nested aggregates: a 2-D array and a struct with an array field, nested l-value paths:
+```
+type T struct { f0 [2]uint4; f1 uint4 }
+func main(m [2][2]uint4, t T) ([2][2]uint4, T, uint4) {
+  m[1][0] = m[0][1] + t.f1; t.f0[1] = m[1][1]; return m, t, t.f0[0] + m[1][0] }
+``` -/
+def exNested : Prog :=
+  [⟨[("m", .arr 2 (.arr 2 (.uint 4))), ("t", tT)], 3,
+    [.assign [⟨"m", [.idx (.lit (.int 32) 1), .idx (.lit (.int 32) 0)]⟩]
+       (.bin .add (.idx (.idx (.var "m") (.lit (.int 32) 0)) (.lit (.int 32) 1)) (.fld (.var "t") 1)),
+     .assign [⟨"t", [.fld 0, .idx (.lit (.int 32) 1)]⟩] (.idx (.idx (.var "m") (.lit (.int 32) 1)) (.lit (.int 32) 1)),
+     .ret [.var "m", .var "t",
+       .bin .add (.idx (.fld (.var "t") 0) (.lit (.int 32) 0)) (.idx (.idx (.var "m") (.lit (.int 32) 1)) (.lit (.int 32) 0))]]⟩]
+
 /-- `lower` succeeds on the examples (number of SSA steps). -/
 theorem C03_ssa_lower_examples_in_fragment :
-    ([exFrag, exLit, exOps, exIf, exEarly, exFor, exDiv].map fun fn => (Ssa.lower 40 fn).map (·.2.length)) =
+    ([exFrag, exLit, exOps, exIf, exEarly, exFor, exDiv].map fun fn => (Ssa.lower 60 [fn] 0).map (·.2.length)) =
       [some 11, some 10, some 17, some 14, some 13, some 28, some 7] ∧
-    ([exFrag, exLit, exOps, exIf, exEarly, exFor, exDiv].map fun fn => Ssa.noDivB fn.body) =
-      [true, true, true, true, true, true, false] := by
-  refine ⟨?_, ?_⟩ <;> decide +kernel
+    ([exFrag, exLit, exOps, exIf, exEarly, exFor, exDiv].map fun fn => Ssa.noDivP [fn]) =
+      [true, true, true, true, true, true, false] ∧
+    [(Ssa.lower 60 exCall 2).map (·.2.length), (Ssa.lower 60 exArr 0).map (·.2.length),
+      (Ssa.lower 60 exStruct 1).map (·.2.length), (Ssa.lower 60 exNested 0).map (·.2.length)] =
+      [some 45, some 24, some 21, some 18] ∧
+    [Ssa.noDivP exCall, Ssa.noDivP exArr, Ssa.noDivP exStruct, Ssa.noDivP exNested] = [true, true, true, true] := by
+  refine ⟨?_, ?_, ?_, ?_⟩ <;> decide +kernel
 
 theorem C03_ssa_lower_ex_straight : bothSem exFrag [0xf0, 0x9] = (some [(0x19, 8), (0x9, 4)], some [(0x19, 8), (0x9, 4)]) := by
   decide +kernel
@@ -614,18 +727,45 @@ theorem C03_ssa_lower_ex_div :
     bothSem exDiv [43, 0xfc] = (some [(242, 8), (1, 8)], some [(242, 8), (1, 8)]) := by
   refine ⟨?_, ?_⟩ <;> decide +kernel
 
+/-- (9, 5): f = (4, true), g(5) = 5, f(4, 5) = (1, false), g(4) + 4 = 8;
+(2, 7): f = (5, false), g(7) = 7, f(5, 7) = (2, false), g(5) + 5 = 10. -/
+theorem C03_ssa_lower_ex_call :
+    bothSemP exCall 2 [9, 5] = (some [(1, 8), (0, 1), (8, 8)], some [(1, 8), (0, 1), (8, 8)]) ∧
+    bothSemP exCall 2 [2, 7] = (some [(2, 8), (0, 1), (10, 8)], some [(2, 8), (0, 1), (10, 8)]) := by
+  refine ⟨?_, ?_⟩ <;> decide +kernel
+
+/-- a = [1, 2, 3, 4], i = 2: b = [1, 1 + 3, 3, 4] = 0x4341, a[3] = 4, s = 12. -/
+theorem C03_ssa_lower_ex_array :
+    bothSemP exArr 0 [0x4321, 2] = (some [(0x4341, 16), (4, 4), (12, 4)], some [(0x4341, 16), (4, 4), (12, 4)]) := by
+  decide +kernel
+
+/-- s = {3, true, 3}: c: {4, false, 3} = 0x144, 4 + 3; not c: {3, true, -3} = 0x0d3, 3 + 3. -/
+theorem C03_ssa_lower_ex_struct :
+    bothSemP exStruct 1 [0x353, 1] = (some [(0x144, 9), (7, 4)], some [(0x144, 9), (7, 4)]) ∧
+    bothSemP exStruct 1 [0x353, 0] = (some [(0x0d3, 9), (6, 4)], some [(0x0d3, 9), (6, 4)]) := by
+  refine ⟨?_, ?_⟩ <;> decide +kernel
+
+/-- m = [[1, 2], [3, 4]], t = {[5, 6], 7}: m[1][0] = 2 + 7 = 9, t.f0[1] = 4, t.f0[0] + m[1][0] = 14. -/
+theorem C03_ssa_lower_ex_nested :
+    bothSemP exNested 0 [0x4321, 0x765] =
+      (some [(0x4921, 16), (0x745, 12), (14, 4)], some [(0x4921, 16), (0x745, 12), (14, 4)]) := by
+  decide +kernel
+
 /-- The excluded deviations are really outside the fragment: `uint8(a)` for
 `a int4` (C03-cast-int-to-wider-uint), a re-declaration in an inner block
 (C03-inner-block-redeclaration), `a & 0xffffffff` at int40
-(C03-const-signed-widening), a signed literal out of range. -/
+(C03-const-signed-widening), a signed literal out of range; and what the real
+compiler rejects: a constant index out of range, recursion. -/
 theorem C03_ssa_lower_excludes_deviations :
-    Ssa.lower 40 ⟨[("a", .int 4)], 1, [.ret [.cast (.uint 8) (.var "a")]]⟩ = none ∧
-    Ssa.lower 40 ⟨[("a", .int 4), ("b", .bool)], 1,
+    Ssa.lower 40 [⟨[("a", .int 4)], 1, [.ret [.cast (.uint 8) (.var "a")]]⟩] 0 = none ∧
+    Ssa.lower 40 [⟨[("a", .int 4), ("b", .bool)], 1,
       [.decl "q" (.int 4) (some (.var "a")),
-       .ifte (.var "b") [.decl "q" (.int 4) (some (.bin .add (.var "a") (.var "a")))] [], .ret [.var "q"]]⟩ = none ∧
-    Ssa.lower 40 ⟨[("a", .int 40)], 1, [.ret [.bin .band (.var "a") (.lit (.int 40) 0xffffffff)]]⟩ = none ∧
-    Ssa.lower 40 ⟨[("a", .int 8)], 1, [.ret [.bin .add (.var "a") (.lit (.int 8) 200)]]⟩ = none := by
-  refine ⟨?_, ?_, ?_, ?_⟩ <;> decide +kernel
+       .ifte (.var "b") [.decl "q" (.int 4) (some (.bin .add (.var "a") (.var "a")))] [], .ret [.var "q"]]⟩] 0 = none ∧
+    Ssa.lower 40 [⟨[("a", .int 40)], 1, [.ret [.bin .band (.var "a") (.lit (.int 40) 0xffffffff)]]⟩] 0 = none ∧
+    Ssa.lower 40 [⟨[("a", .int 8)], 1, [.ret [.bin .add (.var "a") (.lit (.int 8) 200)]]⟩] 0 = none ∧
+    Ssa.lower 40 [⟨[("a", .arr 2 (.uint 4))], 1, [.ret [.idx (.var "a") (.lit (.int 32) 2)]]⟩] 0 = none ∧
+    Ssa.lower 40 [⟨[("a", .uint 4)], 1, [.ret [.call 0 [.var "a"]]]⟩] 0 = none := by
+  refine ⟨?_, ?_, ?_, ?_, ?_, ?_⟩ <;> decide +kernel
 
 /-! ### Fuel is irrelevant
 
